@@ -1,6 +1,6 @@
 SPECIFICATION Spec
 CONSTANTS
-  NS = 3
+  NS = 2
   Topics = {"a", "b"}
   UserTypes = {"A"}
   BadTypes = {"X"}
